@@ -26,7 +26,7 @@
 (*   TRUE   a signature of C or of a server exists only once the agent made it in this behaviour    *)
 (*          (variable sigs); the attacker obtains C's signatures by playing server to C's session   *)
 (*   FALSE  honest agents sign on demand, exactly as the code lets anybody make them: C signs       *)
-(*          (challenge-client c, server key k, CHost) for any c, k (server-initiated flow towards   *)
+(*          (challenge-client c, server key k, CHost) for any c # 0, k (server-initiated flow to    *)
 (*          CHost), a server signs (challenge-server c, client key k, h) for any c, k and its       *)
 (*          hostnames (client-initiated flow); sigs stays empty.  This removes the interleavings of  *)
 (*          the honest sessions from the state space; the harness makes the honest agent really      *)
@@ -151,7 +151,7 @@ CsMenu(s, o) == IF o.mac = s /\ ~o.tok /\ o.cpk = None
 \* key that can make it, and that key), which is what would pass if the failing check were absent;
 \* the full menus (swapped signatures, keys, challenges) are used once the blob passes.
 BlobOK(s, h, o) == o.mac = s /\ ~(now > o.t + ChalTTL) /\ ~o.tok /\ o.host = h
-CanSign(k, g) == k = "kA" \/ (IF Explicit THEN g \in sigs ELSE g.host = CHost)
+CanSign(k, g) == k = "kA" \/ (IF Explicit THEN g \in sigs ELSE g.host = CHost /\ g.ch # 0)
 BestTries(s, h, o) ==
   {<<Sg(k, "cli", o.ch, SrvKey(s), h), IF o.cpk = None THEN k ELSE None, IF o.cpk = None THEN ANonce ELSE 0>> :
       k \in {x \in {"kA", "kC"} : (o.cpk = None \/ o.cpk = x) /\ CanSign(x, Sg(x, "cli", o.ch, SrvKey(s), h))}}
@@ -328,7 +328,7 @@ TypeOK == /\ now \in 0..MaxT /\ ncli \in 0..MaxCli /\ cn \in Nat
 \* (C: any "cli" payload for the hostname it talks to; a server: any "srv" payload).
 Signed(g) == \/ g.key = "kA"
              \/ Explicit /\ g \in sigs
-             \/ ~Explicit /\ g.key = "kC" /\ g.kind = "cli" /\ g.host = CHost
+             \/ ~Explicit /\ g.key = "kC" /\ g.kind = "cli" /\ g.host = CHost /\ g.ch # 0
              \/ ~Explicit /\ g.key \in SrvKeys /\ g.kind = "srv"
 
 (* The clauses about a single request are action properties over the step that handles it (the     *)
